@@ -27,7 +27,7 @@ func TestVerif_C01_valid(t *testing.T) {
 	r := s.Rand()
 	pools := [][]string{c01Methods, c01HdrNames, c01SpecialNames, c01HdrValues, c01BadValues, c01Values,
 		{"example.com:", "[::1]:", "[fe80::1%25en0]:80", "[fe80::1%en0]", "a:b:", "close", "Close", "keep-alive, close", "xclose", "close,", "\tclose ", "closed", "a,Close\t", ":", "]:", "[::1]", "__header_order__", "__pseudo_header_order__", "__Header_Order__", "KEEP-ALIVE", "Proxy-connection", "upgrade", "HOST"}}
-	n := verifh.N(4000, 300000)
+	n := verifh.N(8000, 300000)
 	for i := 0; i < n; i++ {
 		var v string
 		switch r.Intn(5) {
